@@ -18,7 +18,7 @@ import (
 // Op is one API call of a scenario.  Buffers are named by their index in
 // allocation order (B, 1-based), devices by driver device id.
 type Op struct {
-	A    string `json:"a"`              // Alloc AllocU Free Remap Dist Mig Probe Launch CopyOut
+	A    string `json:"a"`              // Alloc AllocU Free Remap Dist Mig Probe Launch CopyOut Burn
 	Ctx  int    `json:"ctx,omitempty"`  // context index (0-based)
 	Dev  int    `json:"dev,omitempty"`  // target device
 	N    int    `json:"n,omitempty"`    // pages
